@@ -20,12 +20,16 @@ import (
 	"os"
 	"os/exec"
 	"path/filepath"
+	"sort"
+	"strings"
 	"testing"
 
 	"pgregory.net/rapid"
 
+	"golang.org/x/crypto/pkcs12"
 	"verif/harness/internal/ev"
 	"verif/harness/internal/gen"
+
 	"verif/harness/internal/refkdf"
 )
 
@@ -175,8 +179,9 @@ type p12Part struct {
 type p12Knobs struct {
 	Cert, Key p12Part
 	// bags and attributes
-	BagMode  int // 0 cert,key; 1 key first; 2 certificate bag duplicated; 3 key bag duplicated; 4 empty certificate SafeContents; 5 empty key SafeContents; 6 both bags in the first SafeContents; 7 extra unknown bag; 8 certBag with SDSI type; 9 plain keyBag OID on the shrouded value; 10 one ContentInfo only; 11 three ContentInfos; 12 certificate OCTET STRING empty
-	AttrMode int // 0 friendlyName+localKeyID; 1 none; 2 odd-length BMPString; 3 empty BMPString; 4 duplicated; 5 unknown attribute; 6 localKeyID as INTEGER; 7 empty value SET; 8 two values; 9 friendlyName as OCTET STRING; 10 empty attribute SET
+	BagMode     int    // 0 cert,key; 1 key first; 2 certificate bag duplicated; 3 key bag duplicated; 4 empty certificate SafeContents; 5 empty key SafeContents; 6 both bags in the first SafeContents; 7 extra unknown bag; 8 certBag with SDSI type; 9 plain keyBag OID on the shrouded value; 10 one ContentInfo only; 11 three ContentInfos; 12 certificate OCTET STRING empty
+	AttrMode    int    // 0 friendlyName+localKeyID; 1 none; 2 odd-length BMPString; 3 empty BMPString; 4 duplicated; 5 unknown attribute; 6 localKeyID as INTEGER; 7 empty value SET; 8 two values; 9 friendlyName as OCTET STRING; 10 empty attribute SET
+	FriendlyRaw []byte // when non-nil: the raw BMPString contents of the friendlyName attribute
 	// key plaintext
 	KeyPlainMode int // 0 PKCS#8; 1 with trailing byte; 2 garbage; 3 empty
 	// lengths
@@ -335,6 +340,9 @@ func p12Build(k *p12Knobs, key any, certDER []byte, password string) ([]byte, er
 	keyID := sha1.Sum(certDER)
 	fname, _ := refkdf.BMPString("verif key")
 	fname = fname[:len(fname)-2] // attribute values carry no terminator
+	if k.FriendlyRaw != nil {
+		fname = k.FriendlyRaw
+	}
 	attrs := func() *dn {
 		fn := dSeq(dOID(p12OIDFriendlyName...), dSet(dPrim(0x1e, fname)))
 		lk := dSeq(dOID(p12OIDLocalKeyID...), dSet(dOct(keyID[:])))
@@ -545,6 +553,23 @@ type c21Knob struct {
 	part  bool
 }
 
+// c21FriendlyClasses: friendlyName contents from character classes that end up in a PEM header.
+func c21FriendlyClasses() map[string][]byte {
+	u := func(units ...uint16) []byte {
+		var b []byte
+		for _, x := range units {
+			b = append(b, byte(x>>8), byte(x))
+		}
+		return b
+	}
+	return map[string][]byte{
+		"CRLF": u('\r', '\n', '\r', '\n'), "colon": u('a', ':', ' ', 'b'), "NULs": u(0, 0, 0), "NUL-terminated": u('k', 'e', 'y', 0), "double-NUL-end": u('k', 0, 0),
+		"spaces-tabs": u(' ', '\t', ' '), "equals": u('=', '=', '='), "BOM": u(0xfeff, 'x'), "lone-high-surrogate": u(0xd800), "lone-low-surrogate": u('a', 0xdc00, 'b'),
+		"surrogate-pair": u(0xd83d, 0xde00), "reversed-pair": u(0xde00, 0xd83d), "noncharacter": u(0xffff, 0xfffe), "dashes-BEGIN": u('-', '-', '-', '-', '-', 'B', 'E', 'G', 'I', 'N'),
+		"long": bytes.Repeat(u('n'), 300),
+	}
+}
+
 func c21Knobs() []c21Knob {
 	var ks []c21Knob
 	for m := 1; m <= 7; m++ {
@@ -579,6 +604,16 @@ func c21Knobs() []c21Knob {
 	for m := 1; m <= 10; m++ {
 		m := m
 		ks = append(ks, c21Knob{fmt.Sprintf("attributes=%d", m), func(k *p12Knobs, p *p12Part) { k.AttrMode = m }, false})
+	}
+	fc := c21FriendlyClasses()
+	var fnames []string
+	for name := range fc {
+		fnames = append(fnames, name)
+	}
+	sort.Strings(fnames)
+	for _, name := range fnames {
+		name, raw := name, fc[name]
+		ks = append(ks, c21Knob{"friendly-name=" + name, func(k *p12Knobs, p *p12Part) { k.FriendlyRaw = raw }, false})
 	}
 	for m := 1; m <= 3; m++ {
 		m := m
@@ -699,6 +734,55 @@ func c21StructBaseline(c *ev.Collector, t *testing.T, openssl, dir string, pool 
 				}
 				c.Case(true, fmt.Sprintf("iterfield|%d|%d", field, it), "field:iterations-"+[]string{"mac", "cert", "key"}[field], fmt.Sprintf("field:iterations=%d", it))
 			}
+		}
+	}
+	// Password character classes: strings made only of NULs, white space, line breaks, padding characters, invalid
+	// UTF-8 (decoded as U+FFFD by the language), the highest BMP code points - all encodable as BMPString, so a
+	// harness-made file must decode; strings with a code point outside the BMP must be refused without a panic.
+	{
+		certDER, _ := c21MakeCert(ec.priv, "c21 structured", 93)
+		for pi, pw := range []string{"\x00", "\x00\x00\x00", "a\x00b", "\x00tail", "lead\x00", "\r\n", "\n", " ", "\t \t", "===", "\ufffd", "\xff\xfe", "\xed\xa0\x80", "\uffff\ufffe", "\ud7ff\ue000", strings.Repeat("\x00", 64), "\U0001F600", "ok\U00010000", "\U0010FFFF"} {
+			i++
+			if !ev.Mine(i) {
+				continue
+			}
+			c21Mem = i
+			bmp, encodable := refkdf.BMPString(pw)
+			got, gerr := pkcs12.VerifBMPString(pw)
+			if encodable != (gerr == nil) || (encodable && !bytes.Equal(got, bmp)) {
+				what := fmt.Sprintf("password encoding of %q: got %x (%v), RFC 7292 B.1 BMPString %x (encodable=%v)", pw, got, gerr, bmp, encodable)
+				c.Violation(what, "")
+				t.Fatalf("VF-VIOLATION: property=C21 %s", what)
+			}
+			k := p12DefaultKnobs("c21.pwclass", i)
+			if pi%2 == 1 {
+				k.Cert.Alg, k.Key.Alg = "3des", "rc2-40"
+			}
+			if encodable {
+				pfx, err := p12Build(k, ec.priv, certDER, pw)
+				if err != nil {
+					inconclusiveT(c, t, "p12Build: %v", err)
+				}
+				e := &c21Export{password: pw, key: ec, certDER: certDER, pfx: pfx, friendly: "verif key", describe: "harness-made PFX " + p12Describe(k)}
+				if gerr := c21CheckGood(e); gerr != nil {
+					what := fmt.Sprintf("%v [password class %q; %s; pfx %x]", gerr, pw, e.describe, pfx)
+					c.Violation(what, "")
+					t.Fatalf("VF-VIOLATION: property=C21 %s", what)
+				}
+				if werr := c21CheckWrongPassword(pfx, pw+"\x00"); werr != nil && strings.Trim(pw, "\x00") != "" { // all-NUL passwords of any length expand to the same KDF input
+					c.Violation(werr.Error(), "")
+					t.Fatalf("VF-VIOLATION: property=C21 %v [password %q plus one NUL]", werr, pw)
+				}
+			} else {
+				pfx, _ := p12Build(k, ec.priv, certDER, "other")
+				var derr, perr error
+				if pan := noPanic(func() { _, _, derr = pkcs12.Decode(pfx, pw); _, perr = pkcs12.ToPEM(pfx, pw) }); pan != nil || derr == nil || perr == nil {
+					what := fmt.Sprintf("Decode/ToPEM with a password outside the BMP (%q): %v / %v / %v; want errors", pw, derr, perr, pan)
+					c.Violation(what, "")
+					t.Fatalf("VF-VIOLATION: property=C21 %s", what)
+				}
+			}
+			c.Case(true, fmt.Sprintf("pwclass|%d|%v", pi, encodable), "field:password-class", map[bool]string{true: "password-class:encodable", false: "password-class:outside-BMP"}[encodable])
 		}
 	}
 	// once per shard: OpenSSL must read a harness-made file (keeps the builder honest even while everything passes)
